@@ -1,71 +1,27 @@
-(* C18 — proofs about the index models, part 1: all small counts by the verified checker. *)
+(* C18 — concrete instances evaluated by the verified checker (non-vacuity and sanity of the parametric
+   theorems of CylinderProofs / SphereProofs / CubeProofs): a few small counts, and the facts that the
+   coincidence classes matter (without merging, the cylinder and the unwelded sphere are NOT closed). *)
 From PF Require Import Gen.Closed Gen.ClosedProofs Gen.Sphere Gen.Hemisphere Gen.Cylinder Gen.Cube.
-From Coq Require Import Lia ZifyN ZifyNat ZifyBool.
 Open Scope N_scope.
 
-Definition range (lo hi : N) : list N := map (fun k => k + lo) (nseq (hi + 1 - lo)).
+Definition small_counts : list (N * N) := [(2, 3); (2, 4); (3, 3); (3, 4); (4, 5); (5, 8); (7, 6)].
 
-Lemma nseq_in : forall n x, In x (nseq n) <-> x < n.
-Proof.
-  intros n x. unfold nseq. rewrite in_map_iff. split.
-  - intros (k & <- & Hk). apply in_seq in Hk. lia.
-  - intros H. exists (N.to_nat x). split; [lia|]. apply in_seq. lia.
-Qed.
+Lemma small_instances_closed :
+  forallb (fun '(r, c) => closed_idxb sphere_cls (sphere_idx r c) && closed_idxb (sphereU_cls r c) (sphereU_idx r c)
+                          && closed_idxb hemi_cls (hemi_idx r c) && closed_idxb (cyl_cls c) (cyl_idx c)) small_counts = true.
+Proof. vm_compute. reflexivity. Qed.
 
-Lemma range_in : forall lo hi x, lo <= x <= hi -> In x (range lo hi).
-Proof.
-  intros lo hi x H. unfold range. apply in_map_iff. exists (x - lo). split; [lia|]. apply nseq_in. lia.
-Qed.
+(* the smallest sphere the constructor accepts: 2 rows, 3 columns = a triangular bipyramid, 6 faces, 9 edges *)
+Example sphere_2_3 : tris_of (sphere_idx 2 3) = [(0, 2, 1); (4, 1, 2); (0, 3, 2); (4, 2, 3); (0, 1, 3); (4, 3, 1)].
+Proof. vm_compute. reflexivity. Qed.
 
-Lemma forallb_range : forall P lo hi, forallb P (range lo hi) = true -> forall x, lo <= x <= hi -> P x = true.
-Proof. intros P lo hi H x Hx. rewrite forallb_forall in H. apply H, range_in, Hx. Qed.
-
-Lemma forallb_range2 : forall (P : N -> N -> bool) r0 r1 c0 c1,
-  forallb (fun r => forallb (P r) (range c0 c1)) (range r0 r1) = true ->
-  forall r c, r0 <= r <= r1 -> c0 <= c <= c1 -> P r c = true.
-Proof.
-  intros P r0 r1 c0 c1 H r c Hr Hc.
-  apply (forallb_range (P r) c0 c1); [|exact Hc].
-  exact (forallb_range (fun r => forallb (P r) (range c0 c1)) r0 r1 H r Hr).
-Qed.
-
-(* ---- every small count: rows <= 24, columns <= 24, sides <= 64 (bounds in the statements) ---- *)
-Lemma sphere_closed_small : forall r c, 2 <= r <= 24 -> 3 <= c <= 24 -> closed_idx sphere_cls (sphere_idx r c).
-Proof.
-  intros r c Hr Hc. apply closed_idxb_iff.
-  apply (forallb_range2 (fun r c => closed_idxb sphere_cls (sphere_idx r c)) 2 24 3 24); [|exact Hr|exact Hc].
-  vm_compute. reflexivity.
-Qed.
-
-Lemma sphereU_closed_small : forall r c, 2 <= r <= 24 -> 3 <= c <= 24 -> closed_idx (sphereU_cls r c) (sphereU_idx r c).
-Proof.
-  intros r c Hr Hc. apply closed_idxb_iff.
-  apply (forallb_range2 (fun r c => closed_idxb (sphereU_cls r c) (sphereU_idx r c)) 2 24 3 24); [|exact Hr|exact Hc].
-  vm_compute. reflexivity.
-Qed.
-
-Lemma hemi_closed_small : forall r c, 2 <= r <= 24 -> 3 <= c <= 24 -> closed_idx hemi_cls (hemi_idx r c).
-Proof.
-  intros r c Hr Hc. apply closed_idxb_iff.
-  apply (forallb_range2 (fun r c => closed_idxb hemi_cls (hemi_idx r c)) 2 24 3 24); [|exact Hr|exact Hc].
-  vm_compute. reflexivity.
-Qed.
-
-Lemma cyl_closed_small : forall n, 3 <= n <= 64 -> closed_idx (cyl_cls n) (cyl_idx n).
-Proof.
-  intros n Hn. apply closed_idxb_iff.
-  apply (forallb_range (fun n => closed_idxb (cyl_cls n) (cyl_idx n)) 3 64); [|exact Hn].
-  vm_compute. reflexivity.
-Qed.
-
-Lemma cubeW_closed : closed_idx cubeW_cls cubeW_idx.
-Proof. apply closed_idxb_iff. vm_compute. reflexivity. Qed.
-
-Lemma cubeQ_closed : closed_idx cubeQ_cls cubeQ_idx.
-Proof. apply closed_idxb_iff. vm_compute. reflexivity. Qed.
-
-(* without merging, the cylinder and the six-quad box are NOT closed: the classes matter *)
+(* without merging coincident positions the cylinder and the unwelded sphere are open *)
 Lemma cyl_unmerged_open : closed_idxb (fun v => v) (cyl_idx 5) = false.
 Proof. vm_compute. reflexivity. Qed.
-Lemma cubeQ_unmerged_open : closed_idxb (fun v => v) cubeQ_idx = false.
+Lemma sphereU_unmerged_open : closed_idxb (fun v => v) (sphereU_idx 3 4) = false.
+Proof. vm_compute. reflexivity. Qed.
+(* two columns / one row are rejected by the constructors and indeed would not be closed surfaces *)
+Lemma sphere_2cols_not_closed : closed_idxb sphere_cls (sphere_idx 3 2) = false.
+Proof. vm_compute. reflexivity. Qed.
+Lemma cyl_2sides_not_closed : closed_idxb (cyl_cls 2) (cyl_idx 2) = false.
 Proof. vm_compute. reflexivity. Qed.
